@@ -129,6 +129,12 @@ def r13_2(ctx):
             elif isinstance(v, ast.BinOp) and isinstance(v.op, ast.Sub) and const_int(v.right) == 1 and isinstance(v.left, ast.Call) and call_name(v.left) == "len":
                 upper = name
                 table_name = norm(v.left.args[0])
+            elif upper is None and any(isinstance(c_, ast.Call) and call_name(c_) == "len" for c_ in ast.walk(v)):
+                lc = [c_ for c_ in ast.walk(v) if isinstance(c_, ast.Call) and call_name(c_) == "len"][0]
+                upper = name
+                table_name = norm(lc.args[0])
+                ctx.violation(f.fq, norm(n), f"{f.module.relpath}:{n.lineno}",
+                              f"the search's upper bound starts at `{norm(v)}`, not at the last index len(table) - 1: a code point above the last table entry probes past the end of the table (IndexError) or skips entries")
     if lower is None or upper is None:
         raise AnalysisError("cannot identify lower/upper bound variables of the search")
     tbl = aliases.get(table_name)
@@ -233,6 +239,19 @@ def r13_2(ctx):
     for k in ("below", "above", "hit"):
         if k not in seen:
             ctx.violation(f.fq, f"missing {k} case", f.where, f"search has no `{k}` case comparing the code point with the probed range")
+    # every other return of the lookup is a constant in {0,1,2} or the normalised hit value
+    for r in walk_local(f.node):
+        if isinstance(r, ast.Return) and r.value is not None:
+            v = r.value
+            if const_int(v) in (0, 1, 2):
+                continue
+            try:
+                vals = {(_w, _eval_width(v, width, _w)) for _w in (-1, 0, 1, 2)}
+                okr = all(res == (0 if _w == -1 else _w) for _w, res in vals)
+            except AnalysisError:
+                okr = False
+            ctx.check(okr, f.fq, norm(r), f"{f.module.relpath}:{r.lineno}", "return value is a cell width in {0,1,2}",
+                      f"`{norm(r)}` can return a raw table width (-1 for control characters) or an unrelated value: the width of a character then depends on which path answered")
     # fallthrough
     last = f.node.body[-1]
     ctx.check(isinstance(last, ast.Return) and const_int(last.value) == 1, f.fq, norm(last), f"{f.module.relpath}:{last.lineno}",
@@ -396,6 +415,9 @@ def r13_3(ctx):
             n_lru += 1
             params = set(fn.params)
             local_defs = {x.id for x in walk_local(fn.node) if isinstance(x, ast.Name) and isinstance(x.ctx, ast.Store)}
+            for x in walk_local(fn.node):
+                if isinstance(x, (ast.Global, ast.Nonlocal)):
+                    local_defs -= set(x.names)
             bad = []
             for x in walk_local(fn.node):
                 if isinstance(x, ast.Name) and isinstance(x.ctx, ast.Load) and x.id not in params and x.id not in local_defs:
